@@ -1506,7 +1506,20 @@ def set_ops(I, args, callee):
 @model('FnMut::call_mut', 'Fn::call', 'FnOnce::call_once', '<F as FnMut>::call_mut', '<F as Fn>::call', '<F as FnOnce>::call_once')
 def fn_trait_call(I, args, callee):
     tup = args[1]
-    return I.call_value(args[0], list(tup.fields))
+    f = args[0]
+    g = f
+    while type(g) is Ref:
+        g = g.get()
+    if g is UNINIT:
+        # zero-sized closure / fn item: the local is never written in MIR; recover the callee from the Self type
+        q = I.parse_qualified(callee)
+        st = re.sub(r"^&\s*('\w+\s+)?(mut\s+)?", '', q[0].strip()) if q else ''
+        if st.startswith('{closure@'):
+            f = Adt(st, None, [])
+        elif st.startswith('fn(') or '{' in st:
+            m = re.search(r'\{(.*)\}$', st)
+            f = FnRef(m.group(1)) if m else f
+    return I.call_value(f, list(tup.fields))
 
 
 @model('Default::default', '<T as Default>::default')
